@@ -226,6 +226,14 @@ func validateRaw(msg messages.Builder, d []byte, strict bool) error {
 		)
 	}
 
+	// BodyLength counts the bytes between the BodyLength field and the CheckSum field, and CheckSum covers
+	// everything that precedes it: the framing fields must be where these definitions place them.
+	head := append(append(append(append([]byte{}, bs.ToBytes()...), fix.Delimiter...), bl.ToBytes()...), fix.Delimiter...)
+	tail := append(append(append([]byte{}, fix.Delimiter...), cs.ToBytes()...), fix.Delimiter...)
+	if !bytes.HasPrefix(d, head) || !bytes.HasSuffix(d, tail) {
+		return fmt.Errorf("BeginString and BodyLength must be the first two fields and CheckSum the last one")
+	}
+
 	checkSum := fix.CalcCheckSum(d[:offset+length-1])
 
 	if !bytes.Equal(cs.Load().ToBytes(), checkSum) {
